@@ -110,8 +110,15 @@ func Path(v ssa.Value) (string, bool) {
 		}
 		return p + "[" + idx + "]", false
 	case *ssa.Extract:
+		if call, ok := x.Tuple.(*ssa.Call); ok && returnsFresh(call, x.Index, 0) {
+			return fmt.Sprintf("alloc:ret%d@%d", x.Index, call.Pos()), true
+		}
 		p, _ := Path(x.Tuple)
 		return fmt.Sprintf("%s#%d", p, x.Index), false
+	case *ssa.Call:
+		if returnsFresh(x, 0, 0) {
+			return fmt.Sprintf("alloc:ret@%d", x.Pos()), true
+		}
 	case *ssa.Const:
 		return "const", false
 	}
@@ -663,4 +670,44 @@ func storesThroughCapture(f *ssa.Function, cell ssa.Value) bool {
 		}
 	}
 	return false
+}
+
+// returnsFresh: result #idx of the call is, on every return of the (static
+// module) callee, an object allocated by that call (or nil): a constructor
+// helper. The object is then as fresh in the caller as if it had been built
+// in place.
+func returnsFresh(call *ssa.Call, idx, depth int) bool {
+	g := call.Call.StaticCallee()
+	if g == nil || !InModule(g) || depth > 2 {
+		return false
+	}
+	found := false
+	for _, b := range g.Blocks {
+		ret, ok := b.Instrs[len(b.Instrs)-1].(*ssa.Return)
+		if !ok || idx >= len(ret.Results) {
+			continue
+		}
+		v := ret.Results[idx]
+		if IsNilConst(v) {
+			continue
+		}
+		switch x := v.(type) {
+		case *ssa.Alloc:
+			found = true
+		case *ssa.Call:
+			if !returnsFresh(x, 0, depth+1) {
+				return false
+			}
+			found = true
+		case *ssa.Extract:
+			c2, ok := x.Tuple.(*ssa.Call)
+			if !ok || !returnsFresh(c2, x.Index, depth+1) {
+				return false
+			}
+			found = true
+		default:
+			return false
+		}
+	}
+	return found
 }
